@@ -2,6 +2,7 @@
 from vf import dtwmon, gen, monitors, oracle, wpsmon
 from vf.oracle import inf
 from vf.runner import Plan
+from vf import ownsuite
 
 RULE = ("cases = calls of dtw.warping_paths (checked cell by cell against the pair-indexed reference DP: shape, "
         "in-band optimum, inf outside the band, -1 marking rule, returned d == optimum == distance()), "
@@ -14,7 +15,7 @@ RULE = ("cases = calls of dtw.warping_paths (checked cell by cell against the pa
 ASSUME = ["oracle tolerance 1e-9 relative; engines 16 ulp / 1e-12", "cells whose optimum exceeds max_dist (or the "
           "pruning bound) may hold inf or any value above it", "-1 marks are validated by rule per engine, "
           "not compared between engines (tie-breaking is free)"]
-PLAN = Plan("C04", RULE, ASSUME,
+PLAN = Plan("C04", RULE, ASSUME, native=ownsuite.native_for("c04", "C04"),
             workers={"quick": [("plain", 16, "C04")], "thorough": [("plain", 13, "C04"), ("asan", 3, "C04")]},
             deciding=("c04_cells_checked", "c04_engine_cells_compared", "c04_slices_checked"),
             crash_is_violation=True)
